@@ -304,7 +304,7 @@ func writeEvidenceFull(path, P, tier string, seed int, named map[string]*namedOb
 	discharged := gfCount - gfFailed
 	backends := map[string]int{}
 	solverSecs := 0.0
-	var samples []interface{}
+	samples := []interface{}{}
 	instances := 0
 	for _, name := range order {
 		n := named[name]
@@ -316,14 +316,14 @@ func writeEvidenceFull(path, P, tier string, seed int, named map[string]*namedOb
 		for b, k := range n.Backends {
 			backends[b] += k
 		}
-		if len(samples) < 12 && n.Clause != "" {
+		if len(samples) < 12 {
 			samples = append(samples, map[string]interface{}{"obligation": name, "clause": n.Clause, "path_instances": n.Instances, "failed_instances": len(n.Failed)})
 		}
 	}
 	if gfCount > 0 {
 		backends["ground-evaluation"] = gfCount - gfFailed
 	}
-	var funcs []string
+	funcs := []string{}
 	for _, fc := range fcs {
 		funcs = append(funcs, fc.name)
 	}
